@@ -1045,3 +1045,89 @@ func (s *TermStore) Decide(c *Term) *Term {
 	}
 	return c
 }
+
+// Subst rebuilds t with variables replaced according to env (constant folding applies, so a closed
+// substitution yields a constant).  memo must be shared between calls with the same env.
+func (s *TermStore) Subst(t *Term, env map[*Term]*Term, memo map[*Term]*Term) *Term {
+	if r, ok := memo[t]; ok {
+		return r
+	}
+	var r *Term
+	switch t.Op {
+	case OConst:
+		r = t
+	case OVar:
+		if v, ok := env[t]; ok {
+			r = v
+		} else {
+			r = t
+		}
+	default:
+		a := make([]*Term, len(t.A))
+		same := true
+		for i, x := range t.A {
+			a[i] = s.Subst(x, env, memo)
+			if a[i] != x {
+				same = false
+			}
+		}
+		if same {
+			r = t
+			break
+		}
+		switch t.Op {
+		case OAdd, OSub, OMul, OUDiv, OURem, OSDiv, OSRem, OAnd, OOr, OXor, OShl, OLshr:
+			r = s.Bin(t.Op, a[0], a[1])
+		case OAshr:
+			if a[0].IsConst() && a[1].IsConst() {
+				r = s.foldBVBig(OAshr, a[0], a[1])
+			} else {
+				r = s.mk(&Term{Op: OAshr, Sort: SBV, W: t.W, A: a})
+			}
+		case ONot:
+			r = s.BNotW(a[0])
+		case ONeg:
+			r = s.Neg(a[0])
+		case OZext:
+			r = s.Resize(a[0], t.W, false)
+		case OSext:
+			r = s.Resize(a[0], t.W, true)
+		case OTrunc:
+			r = s.Resize(a[0], t.W, false)
+		case OMulFull:
+			r = s.MulFull(a[0], a[1])
+		case OExtract:
+			r = s.Extract(a[0], uint8(t.C>>8), uint8(t.C&255))
+		case OConcat:
+			r = s.Concat(a[0], a[1])
+		case OIte:
+			r = s.Ite(a[0], a[1], a[2])
+		case OEq, OUlt, OUle, OSlt, OSle, OILt, OILe, ORLt, ORLe:
+			r = s.Cmp(t.Op, a[0], a[1])
+		case OBNot:
+			r = s.Not(a[0])
+		case OBAnd:
+			r = s.And(a[0], a[1])
+		case OBOr:
+			r = s.Or(a[0], a[1])
+		case OIAdd, OISub, OIMul, OIDiv, OIMod:
+			r = s.IBin(t.Op, a[0], a[1])
+		case OBV2Int:
+			r = s.BV2Int(a[0], false)
+		case OSBV2Int:
+			r = s.BV2Int(a[0], true)
+		case OInt2BV:
+			r = s.Int2BV(a[0], t.W)
+		case ORAdd, ORSub, ORMul, ORDiv:
+			r = s.RBin(t.Op, a[0], a[1])
+		case OInt2Real:
+			r = s.Int2Real(a[0])
+		case OFloor:
+			r = s.Floor(a[0])
+		default:
+			r = s.mk(&Term{Op: t.Op, Sort: t.Sort, W: t.W, C: t.C, Name: t.Name, A: a})
+		}
+	}
+	memo[t] = r
+	return r
+}
